@@ -37,7 +37,7 @@ CLAIMED = {
         category="proof",
         text="Type level: every unconvert arm is proved to return text in its type's lexical language (Y/N; optional sign and digits; one of the declared tokens; at most `length` characters; [YYYYMMDD]HHMMSS.XXX[(+|-)H[H][.MM][:name]] as decided by an independent scanner) or to refuse the value; decimals: structure proved, plain-notation claim evaluated natively on a sampled grid (bounded) with the exponent/NaN cases as a known finding.",
         design_ref="DESIGN.md 9 (C11)",
-        note="Covers the converters only so far: that Aggregate.to_etree writes nothing but converter.unconvert(value) into element text, and the escaping of the wire forms, are not yet under contract in this check (see DESIGN.md status table); known findings KF-C11-decimal-exponent and KF-C11-int-bool are replayed each run.",
+        note="Also under contract: Aggregate.to_etree's loop body writes nothing but converter.unconvert(value) into element text (symbolic attribute), the library's unclosed-tag writer escapes & < > and writes data otherwise verbatim (shaped trees); declarations: enumeration tables well-formed, every bounded string declared strict except eleven reviewed warn-only (NagString) declarations. All four body writers against the reference tokenizer, and whole files, are bounded. ET.tostring's escaping is trusted. Known findings KF-C11-decimal-exponent and KF-C11-int-bool are replayed each run. Two defects repaired (year padding, seconds in UTC offsets).",
         technique="output-language postconditions on the real unconvert functions; pyvc VCs + z3",
         engine="pyvc"),
     "C12": dict(
@@ -49,7 +49,7 @@ CLAIMED = {
         engine="pyvc"),
     "C13": dict(
         category="other",
-        text="Exhaustive decision over the finite, fully enumerated space of model classes (397 Aggregate subclasses, 390 concrete, 2085 declared children): one obligation per (class, clause) for I1 lookup by tag, I2 list/sub-aggregate attribute naming, I3 groom/ungroom renames, I4 list adjacency (witness round trip), I5 mutex groups in force in every inheriting class and naming optional non-repeated children, I6 ElementList shape, I7 tag naming, I8 acyclic class graph, I11 a tree in declared order is read back whole, I12 no class is a strict subclass of a declared child type (the slot admits by isinstance, the writer uses the instance's class name), I9 for every declared child a witness instance is built, written, parsed by the real parser and read back into the same attribute.",
+        text="Exhaustive decision over the finite, fully enumerated space of model classes (397 Aggregate subclasses, 390 concrete, 2085 declared children): one obligation per (class, clause) for I1 lookup by tag, I2 list/sub-aggregate attribute naming, I3 groom/ungroom renames, I4 list adjacency (witness round trip), I5 mutex groups in force in every inheriting class and naming optional non-repeated children, I6 ElementList shape, I7 tag naming, I8 acyclic class graph, I11 a tree in declared order is read back whole, I12 no class is a strict subclass of a declared child type (the slot admits by isinstance, the writer uses the instance's class name), I13 the constructor refuses two members of every exclusivity group in force, I9 for every declared child a witness instance is built, written, parsed by the real parser and read back into the same attribute.",
         design_ref="DESIGN.md 5 and 9 (C13)",
         note="Not a deductive proof: a complete evaluation of invariant predicates on every real class object (exhaustive: true), and an existence witness per declared child run through the real pipeline. The statement for all *values* of a child is the C01/C03 obligations, not this check. Known findings: TAX1099INT_V100 list adjacency; mutex groups naming a repeated child in TAX1099DIV/INT/MISC_V100.",
         technique="class invariants as contracts on the class objects, decided by exhaustive enumeration with per-child witnesses",
@@ -91,9 +91,9 @@ CLAIMED = {
         engine="pyvc"),
     "C15": dict(
         category="proof",
-        text="Per-call contract of the real request_profile over a ghost file system and an abstract parser: the request carries the date of the profile held (none when nothing is cached); 'up to date' returns the cached bytes and leaves the cache untouched; a status-0 response is accepted only if not older than the one held, is written whole and returned; every failing path (transport failure, garbage, error status, 'up to date' with nothing cached, older profile) raises before the cache file is opened for writing and only for one of these reasons; dry runs write nothing. Hence, by induction over sequential histories, the cache is always absent or one complete accepted profile at least as new as any it held.",
+        text="Per-call contract of the real request_profile over a ghost file system and an abstract parser: the request carries the date of the profile held (none when nothing is cached); 'up to date' returns the cached bytes and leaves the cache untouched; a status-0 response is accepted only if not older than the one held, is written whole and returned; every failing path (transport failure, garbage, error status, 'up to date' with nothing cached, older profile) raises before the cache file is opened for writing and only for one of these reasons; dry runs write nothing; the only files a call writes are the institution's own cache entry or files whose name is derived from it / depends on ORG and FID (per-path ghost file system with os.replace). The induction step over sequential histories (invariant preserved, never back to an older profile, a failing call changes nothing, success returns the profile then held) is machine-checked over a transcription of the contract's clauses.",
         design_ref="DESIGN.md 9 (C15)",
-        note="NOT DECIDED by this technique family (no contract within reach, nothing substituted): a crash between open(...,'wb') and the completed write; interleavings of the truncate/write steps of concurrent request_profile calls. Decided of the concurrency clause: a rely/guarantee variant of the per-call contract (every read of the cache file returns unconstrained content) proves that a successful call returns and writes only bytes it has itself parsed as a whole profile. The contract holds for either value of the persist option. Known findings: cache key <org>-<fid> ignores the URL and is not injective. The induction over histories is argued from the per-call contract, not machine-checked; the bounded companion enumerates all histories of length <= 3 (4 thorough) over 8 server behaviours with client restarts on a real cache file.",
+        note="NOT DECIDED by this technique family (no contract within reach, nothing substituted): a crash between open(...,'wb') and the completed write; interleavings of the truncate/write steps of concurrent request_profile calls. Decided of the concurrency clause: a rely/guarantee variant of the per-call contract (every read of the cache file returns unconstrained content) proves that a successful call returns and writes only bytes it has itself parsed as a whole profile. The contract holds for either value of the persist option. Known findings: cache key <org>-<fid> ignores the URL and is not injective. The induction principle itself and the base case are not formalised; the bounded companion enumerates all histories of length <= 3 (4 thorough) over 8 server behaviours with client restarts on a real cache file.",
         technique="contract with ghost file state and abstract parser (pyvc + z3); bounded enumeration of histories on real files",
         engine="pyvc"),
     "C06": dict(
@@ -140,9 +140,9 @@ CLAIMED = {
         engine="pyvc"),
     "C18": dict(
         category="proof",
-        text="merge_config / merge_from_ofxhome are proved, for every option of DEFAULTS independently and for all presence patterns and values in each source, to return the value of the highest-ranking source that sets it: command line, then the named server's section, then OFX Home (url, org, fid, brokerid - when an OFX Home id is in effect and the lookup finds it), then the built-in default. Table facts: the password is not a configurable option. Persistence (--write then a second run), nothing on a dry run, one default CLIENTUID: bounded run on the real argparser/configparser with a scratch configuration directory.",
+        text="merge_config / merge_from_ofxhome are proved, for every option of DEFAULTS independently and for all presence patterns and values in each source, to return the value of the highest-ranking source that sets it: command line, then the named server's section, then OFX Home (url, org, fid, brokerid - when an OFX Home id is in effect and the lookup finds it), then the built-in default. Table facts: the password is not a configurable option. mk_server_cfg (the body of --write) is proved per option: the value given on this run is the value in effect on the next run, with the user's server section, the user's [DEFAULT] section and the FI database symbolic (codecs abstract, assumed inverse). read_config is proved per option over an abstract section: an option is returned iff the section has it, whatever its text, through the getter of its declared type. extractns keeps every non-None value. Persistence end to end, nothing on a dry run, one default CLIENTUID: bounded run on the real argparser/configparser with a scratch configuration directory.",
         design_ref="DESIGN.md 9 (C18)",
-        note="ChainMap is modelled (first present wins); extractns/read_config/ofxhome.lookup are abstract mappings. User file over FI database is configparser's read order: bounded only. Persistence is bounded only (100 sampled option sets, 300 thorough; values incl. '%', '&', '=' and lists of 1-3). Two defects repaired (stale value kept when the new value equals the default; '%' not escaped).",
+        note="ChainMap is modelled (first present wins); in the merge_config proof extractns/read_config/ofxhome.lookup are abstract mappings (their own contracts: extractns, read_config; ofxhome.lookup's record parser is bounded only, fed with records as OFX Home serves them). User file over FI database is configparser's read order, arg2config/convert_list codecs: bounded only (sampled option sets; values incl. '%', '&', '=', blanks, lists of 1-3; convert_list for every text of <= 6 characters). Three defects repaired (stale value kept when the new value equals the default; '%' not escaped; a [DEFAULT]-section value surviving --write).",
         technique="precedence postcondition per option over abstract mappings (pyvc + z3); bounded write/read runs on real files",
         engine="pyvc"),
 }
